@@ -307,3 +307,14 @@ FAMILIES = [
            desc='whole pipelines: len == #iterated; ds[i] == i-th iterated / IndexError for one symbolic i'),
     Family('L2_npint', body_npint, ['backing', 'n', 'ops', 'i'], U.POOL_PARAMS, _np_conditions, timeout=60, desc='numpy integer index types'),
 ]
+
+
+def extra(tier, seed, ctx):
+    """E3: the IEEE-double formula of BatchDataset.__len__ equals floor/ceiling division (cvc5, QF_BVFP)"""
+    from engine import kernels
+    return kernels.run(tier, nproc=ctx['nproc'], log=ctx['log'])
+
+
+def custom_replay(payload):
+    from engine import kernels
+    return kernels.replay(payload)
